@@ -746,6 +746,8 @@ def _repo_test_cases():
 def run(ctx):
     ev, v = ctx.ev, ctx.v
     thorough = ctx.thorough
+    T0 = time.time()
+    lap = lambda what: ctx.log(f"[{time.time() - T0:6.1f}s] {what}")
     # ---- 1. theorem: all small libraries x calls x one fault anywhere + retry
     mc_n, mc_p = (4, 3) if thorough else (3, 2)
     cfg = "SPECIFICATION MCSpec\n" + _consts(mc_n, mc_p, ["all", "filtered", "infolder"]) + "".join(f"INVARIANT {i}\n" for i in INVS)
@@ -766,6 +768,7 @@ def run(ctx):
         if r.violated != inv:
             raise MachineryError(f"sensitivity run: deviation {dev} did not violate {inv} (got {r.violated}): invariant vacuous")
 
+    lap("theorem + sensitivity runs done")
     # ---- 2. cases enumerated by TLC
     fstates = _gen(ctx, "filter", 0, 1, ["all"], "filter")
     fcases = sorted((j for _, j, _ in fstates), key=lambda j: json.dumps(j, sort_keys=True))
@@ -799,6 +802,7 @@ def run(ctx):
     ctx.log(f"TLC enumerated {n_enum} walk cases (replaying {len(cases)}), {len(fcases)} filter cases; "
             f"+{len(big)} random larger libraries, +{len(repo)} repo-test scenarios")
 
+    lap("cases enumerated")
     # ---- 3. drive the real client (worker processes import the library from $SP2T_REPO)
     all_cases = cases + big + repo
     t0 = time.time()
@@ -816,6 +820,7 @@ def run(ctx):
     flags, di, st, wall = _batch(_trace_cfg(True), everything, ctx)
     ev.tlc_counts("GraphTrace strict: recorded traces vs walker/server model", di, st, wall)
     rejected = [i for i, a in enumerate(flags) if not a]
+    lap(f"strict validation done: {len(rejected)} of {len(everything)} traces rejected")
     n_ok = len(everything) - len(rejected)
     drift, bad = [], []
     if rejected:
